@@ -455,6 +455,11 @@ func c01Binary(r *vk.Run, id string, rng *vk.Rand, specs []vBitmapSpec, matrix b
 			all = vUnion(all, m)
 		}
 		c01Check(r, id, "UnionInPlace", specs, idx, tgt.Slice(), all, "on Clone of operand 0")
+		// a bitmap united in place with itself (alone or among others) is still itself
+		self := a.Clone()
+		self.UnionInPlace(self)
+		c01Check(r, id, "UnionInPlace", specs, []int{0}, self.Slice(), ma, "x.UnionInPlace(x)")
+		c01CheckN(r, id, "UnionInPlace", specs, []int{0}, self.Count(), uint64(len(ma)), "Count after x.UnionInPlace(x)")
 		c01CheckN(r, id, "UnionInPlace", specs, idx, tgt.Count(), uint64(len(all)), "Count after")
 		c01ResultOK(r, id, "UnionInPlace", specs, tgt)
 		for i := range bms {
